@@ -82,7 +82,7 @@ func intsShape(r *Rand, vals []int64) TV {
 func randVals(r *Rand, n int, alphabet int) []int64 {
 	vs := make([]int64, n)
 	for i := range vs {
-		vs[i] = int64(1 + r.Intn(alphabet))
+		vs[i] = int64(r.Intn(alphabet+1)) - 1 // -1, 0 (zero values of their Go types) and 1..alphabet-1
 	}
 	return vs
 }
@@ -235,7 +235,7 @@ func smallScope(kind string, add func(in interface{})) {
 	}
 }
 
-const e2eRule = "seeded document sets (1..maxDocs documents, 1..4 and sometimes 200+ conjunctions, 0..6 expressions over the fields with repetition on one field, 0..4 values from a 6-value alphabet in several Go representations, empty lists, all-negative and empty conjunctions, ids incl. 0 and +-(2^43-1)), every tenth case over 9..16 fields, every eighth with pattern and range fields next to the default ones; documents added one per AddDocument call or (30%) in groups of 2..5, (20%) with an intermediate BuildIndex before the remaining documents, (25%) on a builder that has already built and Reset an earlier generation; 8..20 queries per index (absent/nil/empty/1..3 values per field, an unknown field, repeats, debug options on 20%); thorough adds the exhaustive small scope (2 documents, conjunctions of <=2 atoms over 2 fields x 2 values, all 16 assignments). A case is non-trivial when some query returns a non-empty proper subset of the accepted documents; distinct = distinct input"
+const e2eRule = "seeded document sets (1..maxDocs documents, 1..4 and sometimes 200+ conjunctions, 0..6 expressions over the fields with repetition on one field, 0..4 values from the alphabet {-1, 0, 1..5} in several Go representations, empty lists, all-negative and empty conjunctions, ids incl. 0 and +-(2^43-1)), every tenth case over 9..16 fields, every eighth with pattern and range fields next to the default ones; documents added one per AddDocument call or (30%) in groups of 2..5, (20%) with an intermediate BuildIndex before the remaining documents, (25%) on a builder that has already built and Reset an earlier generation; 8..20 queries per index (absent/nil/empty/1..3 values per field, an unknown field, repeats, debug options on 20%); thorough adds the exhaustive small scope (2 documents, conjunctions of <=2 atoms over 2 fields x 2 values, all 16 assignments). A case is non-trivial when some query returns a non-empty proper subset of the accepted documents; distinct = distinct input"
 
 func init() {
 	gen := func(kind string, multiSat, mixed bool) func(tier string, r *Rand, add func(in interface{})) {
